@@ -17,6 +17,7 @@
   multi-exon, origin-spanning), all query locations and all histories — no bound on sizes.
 -/
 import ASV.Proofs.LookupValid
+import ASV.Proofs.GeneFunctions
 namespace ASV.C08
 open ASV ASV.Lookup
 
@@ -303,6 +304,45 @@ theorem definition_needs_exact_product (len : Int) (ops : List Op) (r : Rec) (ho
   have hp' : d.product ∈ g'.cores := by simpa using hp
   exact hne _ hp' rfl
 
+/-! #### the gene-function container a protocluster consults (`GeneFunctionAnnotations`) -/
+
+/-- after any history of `add` / `clear` calls both indexes agree with the annotation list: `get_by_function`
+    and `get_by_tool` return exactly the carried annotations with that function / tool, in order -/
+theorem gene_function_index_consistent (h : List GeneFn.Op) (fn : Nat) (tool : String) :
+    (GeneFn.run h).annotations = GeneFn.carried h ∧
+    (GeneFn.run h).getByFunction fn = (GeneFn.carried h).filter (fun a => a.fn == fn) ∧
+    (GeneFn.run h).getByTool tool = (GeneFn.carried h).filter (fun a => a.tool == tool) := by
+  have c := GeneFn.run_consistent h
+  refine ⟨GeneFn.run_annotations h, ?_, ?_⟩
+  · rw [c.getByFunction, GeneFn.run_annotations]
+  · rw [c.getByTool, GeneFn.run_annotations]
+
+/-- what `Protocluster.add_cds` sees are the products of the core annotations the gene carries (added since
+    the last `clear` / `strip_antismash_annotations`) -/
+theorem core_products_are_carried (h : List GeneFn.Op) :
+    GeneFn.coreProducts (GeneFn.run h) = GeneFn.specCoreProducts h := by
+  simp only [GeneFn.coreProducts, GeneFn.specCoreProducts, (gene_function_index_consistent h GeneFn.CORE "").2.1]
+
+/-- a stripped gene carries no core annotation, whatever it carried before -/
+theorem cleared_gene_has_no_cores (h : List GeneFn.Op) :
+    GeneFn.coreProducts (GeneFn.run (h ++ [.clear])) = [] := by
+  rw [core_products_are_carried]
+  simp [GeneFn.specCoreProducts, GeneFn.carried, List.foldl_append]
+
+/-- defining genes over annotation histories: a gene whose annotation container went through the calls `h`
+    before it met the protocluster defines it only if it still *carries* a core annotation for the product —
+    annotations removed by a strip do not count -/
+theorem definition_needs_carried_annotation (len : Int) (ops : List Op) (r : Rec) (hok : HistoryOK ops)
+    (hrun : run len ops = .ok r) (a : AreaT) (ha : a ∈ (liveAfter ops).areas) (d : AreaT) (hd : d ∈ nodes a)
+    (hk : d.kind = .proto) (g : Gene) (hg : g ∈ r.genes) (h : List GeneFn.Op)
+    (hcores : g.cores = GeneFn.coreProducts (GeneFn.run h)) (hm : g.id ∈ r.definition d.id) :
+    d.product ∈ GeneFn.specCoreProducts h := by
+  rw [← core_products_are_carried, ← hcores]
+  by_cases hp : d.product ∈ g.cores
+  · exact hp
+  · exact absurd hm (definition_needs_exact_product len ops r hok hrun a ha d hd hk g hg
+      (fun p hpm e => hp (e ▸ hpm)))
+
 /-- a sideloaded protocluster (`SideloadedProtocluster`) never has defining genes -/
 theorem sideloaded_defines_nothing (len : Int) (ops : List Op) (r : Rec) (hok : HistoryOK ops) (hrun : run len ops = .ok r)
     (a : AreaT) (ha : a ∈ opsAreas ops) (d : AreaT) (hd : d ∈ nodes a) (hk : d.kind = .sideProto) :
@@ -479,5 +519,9 @@ example : (run 1000 [.cds { id := 0, loc := .simple ⟨120, 180, .fwd⟩, cores 
       .area (.mk 101 .proto (.simple ⟨60, 450, .fwd⟩) (.simple ⟨110, 350, .fwd⟩) "NRPS" [])]).toOption.map
       (fun r => (r.definition 100, r.definition 101)) = some ([], [0]) := by
   decide +kernel
+
+/-- annotation history of the round-5 seed: core for "a", stripped, then core for "b" — the gene carries "b" only -/
+example : GeneFn.coreProducts (GeneFn.run [.add ⟨1, "rules", "domA", "a"⟩, .add ⟨2, "smcogs", "x", ""⟩, .clear,
+    .add ⟨1, "rules", "domB", "b"⟩]) = ["b"] := by decide
 
 end ASV.C08
